@@ -764,7 +764,8 @@ impl Engine for OtlpSim {
             1 => 1 + ch.choose(3),
             _ => 4 + ch.choose(6),
         };
-        let big = !c14 && ch.chance(1, 4);
+        // (routing runs too: a batch that is split into several requests must still export every event exactly once)
+        let big = if c14 { ch.chance(1, 8) } else { ch.chance(1, 4) };
         let n_events = if big { 3 + ch.choose(10) } else { 1 + ch.choose(if ctx.thorough { 40 } else { 16 }) } as usize;
         let mut events = Vec::new();
         for i in 0..n_events {
@@ -786,7 +787,10 @@ impl Engine for OtlpSim {
                 MVal::Number
             };
             let medium = !c14 && !big && ch.chance(1, 10);
-            let payload = if big {
+            let payload = if big && c14 {
+                // large enough that three events pending for one signal are split over two requests
+                400_000 + ch.choose(200_000) as usize
+            } else if big {
                 100_000 + ch.choose(200_000) as usize
             } else if medium {
                 30_000 + ch.choose(60_000) as usize
@@ -1089,6 +1093,10 @@ impl Engine for OtlpSim {
                         log.iter().filter(|r| r.signal == sig).count()
                     );
                     out.violate(prop, rule, d.clone());
+                    if c14 && any_failed.is_empty() && !refused_any {
+                        // nothing failed anywhere: an event with a signal to take it that is exported through none
+                        out.violate("C14", "not_exported", d.clone());
+                    }
                     if rule == "lost_on_drop" {
                         out.violate("C08", rule, d.clone());
                     } else {
@@ -1101,6 +1109,13 @@ impl Engine for OtlpSim {
                         "duplicate_without_failure",
                         format!("event {} appears in {seen} requests although no request of {sig:?} failed", ev.marker),
                     );
+                    if c14 {
+                        out.violate(
+                            "C14",
+                            "exported_twice",
+                            format!("event {} was exported {seen} times through {sig:?} although no request failed", ev.marker),
+                        );
+                    }
                 }
             }
             // intermediate flushes: true => everything emitted before is acknowledged by then (or given up)
